@@ -24,8 +24,9 @@ RULE = ("correspondence: one driver line per history (run/member), per ChainFind
         "weight (best_weight); distinct = distinct line; non-trivial = "
         "the model returns a value that does not start with '!'")
 PARTIAL = [
-    "preload_locked_blocks, negative indices of tuple_for_index, unlocked_block_storage and did_lock_to_index_f are "
-    "not modelled; change callbacks are only checked directly (they receive the returned ops list)",
+    "negative indices of tuple_for_index, unlocked_block_storage and did_lock_to_index_f are not modelled; "
+    "preload_locked_blocks is modelled for a freshly constructed BlockChain only; change callbacks are only checked "
+    "directly (they receive the returned ops list)",
 ]
 TRUSTED = [
     "Python dict/set modelled as association lists / duplicate-free lists; set.pop() and set iteration order as "
@@ -35,11 +36,12 @@ TRUSTED = [
     "spy runs pass a set subclass with a harness-chosen pop() into the unmodified meld_new_hashes",
 ]
 ASSUMPTIONS = [
-    "headers form a forest (a rank decreases towards the parent), a hash determines parent and weight, weights > 0, "
-    "no header has the initial anchor's hash; lock indices do not exceed the reported length",
+    "headers form a forest (a rank decreases towards the parent), a hash determines parent and weight, weights > 0; "
+    "preloaded headers form a chain from the anchor; lock indices do not exceed the reported length",
 ]
 
 ANCHOR = 1000
+ANC_PARENT, ANC_GRAND = 999, 998      # ancestors of the block whose hash is the anchor (checkpoint histories)
 
 
 # ------------------------------------------------------------------------------------------------
@@ -47,6 +49,8 @@ ANCHOR = 1000
 def lab(mode, i):
     if mode == "int":
         return i
+    if i == 0:
+        return b"\0" * 32           # BlockChain's default anchor (ZERO_HASH)
     return _hl.sha256(b"c15-%d" % i).digest()
 
 
@@ -85,7 +89,9 @@ class SpyCF(_CF):
 
 
 def run_impl(hist, spy_prios=None):
-    """hist = {"anchor": int, "mode": "int"|"bytes", "events": [["D", [[h,p,w],...]] | ["L", n]]}
+    """hist = {"anchor": int, "mode": "int"|"bytes", "events": [["D", [[h,p,w],...]] | ["L", n]],
+               optional "pre": [[h,p,w],...] handed to preload_locked_blocks right after construction,
+               optional "default_anchor": True -> BlockChain() without parent_hash (anchor label 0, bytes mode)}
     returns (snapshots, stop, prefs, extra) ; snapshots in model numbering"""
     mode = hist["mode"]
     back = {}
@@ -97,14 +103,21 @@ def run_impl(hist, spy_prios=None):
 
     _BCmod.ChainFinder = SpyCF if spy_prios is not None else _CF
     try:
-        bc = _BCmod.BlockChain(L(hist["anchor"]), unlocked_block_storage={})
+        if hist.get("default_anchor"):
+            L(hist["anchor"])
+            bc = _BCmod.BlockChain(unlocked_block_storage={})
+        else:
+            bc = _BCmod.BlockChain(L(hist["anchor"]), unlocked_block_storage={})
+        pre = hist.get("pre") or []
+        if pre:
+            bc.preload_locked_blocks([Hdr(L(h), L(p), w) for h, p, w in pre])
         cb_ops = []
 
         def cb(_bc, ops):
             cb_ops.append(list(ops))
         bc.add_change_callback(cb)
         snaps, prefs = [], []
-        delivered = []
+        delivered = [h for h, p, w in pre]
         stop = "ok"
         cb_mismatch = False
         for k, ev in enumerate(hist["events"]):
@@ -162,6 +175,8 @@ def ev_tokens(hist, prios, prefs):
     """prios[k] / prefs[k]: list of label ints, or "*" (enumerate)"""
     mode = hist["mode"]
     toks = []
+    if hist.get("pre"):
+        toks.append("P:" + ",".join("%s.%s.%s" % (hexn(mint(mode, h)), hexn(mint(mode, p)), hexn(w)) for h, p, w in hist["pre"]))
     for k, ev in enumerate(hist["events"]):
         pr = prios[k]
         pf = prefs[k]
@@ -176,7 +191,7 @@ def ev_tokens(hist, prios, prefs):
 
 
 def hist_labels(hist):
-    s = []
+    s = [h for h, p, w in (hist.get("pre") or [])]
     for ev in hist["events"]:
         if ev[0] == "D":
             for h, p, w in ev[1]:
@@ -237,12 +252,18 @@ def _register(nodes, old):
 
 
 def well_formed(hist):
-    """consistent, acyclic, positive weights, initial anchor not a header"""
+    """consistent, acyclic, positive weights; the preloaded headers form a chain from the anchor.  The anchor may be
+    the hash of a delivered header."""
     D = {}
+    prev = hist["anchor"]
+    for h, p, w in (hist.get("pre") or []):
+        if p != prev or w <= 0 or D.setdefault(h, (p, w)) != (p, w):
+            return False
+        prev = h
     for ev in hist["events"]:
         if ev[0] == "D":
             for h, p, w in ev[1]:
-                if w <= 0 or h == hist["anchor"] or D.setdefault(h, (p, w)) != (p, w):
+                if w <= 0 or D.setdefault(h, (p, w)) != (p, w):
                     return False
     for h in D:
         x, n = h, 0
@@ -261,6 +282,10 @@ def check_history(hist, spy_prios=None):
     mode = hist["mode"]
     D = {}
     replay = []
+    for h, p, w in (hist.get("pre") or []):
+        D.setdefault(mint(mode, h), (mint(mode, p), w))
+        replay.append(mint(mode, h))
+    npre = len(replay)
     for k, ev in enumerate(hist["events"]):
         if k >= len(snaps):
             if stop == "!E_INDEX" and ev[0] == "L" and ev[1] > len(replay):
@@ -283,7 +308,7 @@ def check_history(hist, spy_prios=None):
         if replay != chain:
             return {"kind": "ops-replay", "event": k, "detail": "replayed ops give a different chain",
                     "chain": [hexn(x) for x in chain], "replayed": [hexn(x) for x in replay]}
-        if nlocked > len(chain):
+        if nlocked > len(chain) or nlocked < npre:
             return {"kind": "locked-length", "event": k}
         prev = anchor0
         for h in chain:
@@ -413,6 +438,128 @@ def random_hist(rng, nmax=40, locks=True, dups=True, tiefree=False, bad=False, m
     return hist
 
 
+
+# ---- every way of anchoring a BlockChain ------------------------------------------------------------------------
+def _copy_hist(hist):
+    h = dict(hist)
+    h["events"] = [[ev[0], [list(x) for x in ev[1]]] if ev[0] == "D" else [ev[0], ev[1]] for ev in hist["events"]]
+    if hist.get("pre"):
+        h["pre"] = [list(x) for x in hist["pre"]]
+    return h
+
+
+def _batches(hist):
+    return [ev for ev in hist["events"] if ev[0] == "D"]
+
+
+def with_checkpoint(rng, hist, positions=None):
+    """the anchor is the hash of a real block (a checkpoint given to the constructor): its own header and headers of its
+    ancestors are delivered too (alone, inside other batches, repeatedly), as peers send them"""
+    h = _copy_hist(hist)
+    a = h["anchor"]
+    wa = rng.randint(1, 4)
+    anchor_hdr, parent_hdr = [a, ANC_PARENT, wa], [ANC_PARENT, ANC_GRAND, rng.randint(1, 4)]
+    bs = _batches(h)
+    if positions is None:
+        positions = [rng.randrange(len(bs)) for _ in range(rng.randint(1, 3))] if bs else []
+    for b in positions:
+        bs[b][1].insert(rng.randrange(len(bs[b][1]) + 1), list(anchor_hdr))
+        if rng.random() < 0.4:
+            bs[b][1].insert(rng.randrange(len(bs[b][1]) + 1), list(parent_hdr))
+    if rng.random() < 0.3:
+        h["events"].insert(rng.randrange(len(h["events"]) + 1), ["D", [list(anchor_hdr)]])
+    if rng.random() < 0.2:
+        h["events"].insert(rng.randrange(len(h["events"]) + 1), ["D", [list(parent_hdr), list(anchor_hdr)]])
+    return h
+
+
+def with_preload(rng, hist):
+    """preload_locked_blocks right after construction; roots of the forest hang off the last preloaded block (some off
+    earlier ones or the original anchor: forks below the lock point); the preloaded headers are delivered again"""
+    h = _copy_hist(hist)
+    a = h["anchor"]
+    m = rng.randint(1, 3)
+    ids = [3001 + i for i in range(m)]
+    pre, prev = [], a
+    for x in ids:
+        pre.append([x, prev, rng.randint(1, 4)])
+        prev = x
+    for ev in h["events"]:
+        if ev[0] == "D":
+            for x in ev[1]:
+                if x[1] == a:
+                    r = rng.random()
+                    x[1] = ids[-1] if r < 0.75 else (rng.choice(ids) if r < 0.9 else a)
+        elif isinstance(ev[1], int):
+            ev[1] += m
+    # one header, one parent: re-target consistently (same hash must keep the same parent)
+    seen = {}
+    for ev in h["events"]:
+        if ev[0] == "D":
+            for x in ev[1]:
+                x[1] = seen.setdefault(x[0], x[1])
+    bs = _batches(h)
+    for _ in range(rng.randint(0, 3)):
+        if bs:
+            b = rng.choice(bs)
+            b[1].insert(rng.randrange(len(b[1]) + 1), list(rng.choice([pre[-1], rng.choice(pre)])))
+    h["pre"] = pre
+    return h
+
+
+def with_default_anchor(hist):
+    """BlockChain() with the default anchor ZERO_HASH (label 0, bytes presentation)"""
+    h = _copy_hist(hist)
+    a = h["anchor"]
+    for ev in h["events"]:
+        if ev[0] == "D":
+            for x in ev[1]:
+                if x[1] == a:
+                    x[1] = 0
+                if x[0] == a:
+                    x[0] = 0
+    for x in h.get("pre") or []:
+        if x[1] == a:
+            x[1] = 0
+    h["anchor"], h["mode"], h["default_anchor"] = 0, "bytes", True
+    return h
+
+
+def anchor_variants(rng, hist, all_kinds=False):
+    """the same history under other kinds of anchor"""
+    kinds = ["checkpoint", "preload", "default", "checkpoint+preload"]
+    if not all_kinds:
+        kinds = [rng.choice(kinds)]
+    for k in kinds:
+        if k == "checkpoint":
+            yield with_checkpoint(rng, hist)
+        elif k == "preload":
+            yield with_preload(rng, hist)
+        elif k == "default":
+            yield with_default_anchor(with_checkpoint(rng, hist) if rng.random() < 0.5 else hist)
+        else:
+            yield with_checkpoint(rng, with_preload(rng, hist))
+
+
+def checkpoint_exhaustive(rng, nmax):
+    """every forest on <= nmax headers x every batching x the checkpoint header put into each single batch, into all
+    batches, and delivered alone first / last"""
+    for n in range(1, nmax + 1):
+        for pf in forests(n):
+            for comp in compositions(n):
+                base = make_hist(rng, pf, comp, [1] * n, "int")
+                nb = len(comp)
+                for pos in [[b] for b in range(nb)] + [list(range(nb))]:
+                    yield with_checkpoint(rng, base, positions=pos)
+                hdr = [base["anchor"], ANC_PARENT, 1]
+                first = _copy_hist(base)
+                first["events"].insert(0, ["D", [list(hdr)]])
+                yield first
+                lastv = _copy_hist(base)
+                lastv["events"].append(["D", [list(hdr)]])
+                yield lastv
+
+
 def resolve_locks(hist, spy_prios=None):
     """("keep", k) lock placeholders -> lock_to_index(length - k) using the implementation's own length (the way a
     client locks all but the last k blocks); never out of range"""
@@ -464,7 +611,7 @@ def case_spy(hist, prios):
 def case_best_weight(hist):
     D = {}
     toks = []
-    for ev in hist["events"]:
+    for ev in [["D", hist.get("pre") or []]] + hist["events"]:
         if ev[0] == "D":
             for h, p, w in ev[1]:
                 if h not in D:
@@ -523,6 +670,9 @@ def corpus_cases():
     yield case_plain(ANCHOR_HIST)
     yield case_plain(TIE_HIST)
     yield case_spy(TIE_SPY_HIST, TIE_SPY_PRIOS)
+    yield case_plain(CHECKPOINT_HIST)
+    yield case_plain(PRELOAD_HIST)
+    yield case_plain(with_default_anchor(PRELOAD_HIST))
 
 
 def _hists(rng, tier):
@@ -530,9 +680,22 @@ def _hists(rng, tier):
     nmax = 4 if tier == "quick" else 5
     for h in exhaustive_hists(rng, nmax):
         yield h, None
+        if rng.random() < 0.25:
+            for v in anchor_variants(rng, h):
+                if small_batches(v):
+                    yield v, None
+                else:
+                    yield v, rand_prios(rng, v)
+    for h in checkpoint_exhaustive(rng, 3 if tier == "quick" else 4):
+        if small_batches(h):
+            yield h, None
+        if rng.random() < 0.3:
+            yield h, rand_prios(rng, h)
     nrand = 4000 if tier == "quick" else 40000
     for i in range(nrand):
         h = random_hist(rng, rng.choice([6, 10, 20, 40]), tiefree=(rng.random() < 0.3))
+        if rng.random() < 0.4:
+            h = next(anchor_variants(rng, h))
         if i % 3 == 0 and small_batches(h) and (tier == "thorough" or len(hist_labels(h)) <= 25):
             yield resolve_locks(h), None
         else:
@@ -609,8 +772,34 @@ def regression_cases():
         yield _pc(TIE_SPY_HIST, [[], [], [], pr, []])
 
 
+CHECKPOINT_HIST = {"anchor": 9, "mode": "int",
+                   "events": [["D", [[9, 1, 2], [7, 9, 2]]], ["D", [[1, 0, 2], [9, 1, 2], [6, 7, 2], [8, 9, 2]]],
+                              ["D", [[9, 1, 2]]], ["D", [[5, 6, 2]]]]}
+PRELOAD_HIST = {"anchor": 0, "mode": "int", "pre": [[1, 0, 1], [2, 1, 1]],
+                "events": [["D", [[2, 1, 1], [3, 2, 1]]], ["D", [[1, 0, 1], [4, 3, 1]]], ["L", 3], ["D", [[3, 2, 1]]]]}
+
+
+def anchor_kind_cases():
+    """one fixed history under every kind of anchor: constructor checkpoint whose header is delivered (alone and inside
+    overlapping batches), preloaded chain, default anchor, and after lock_to_index"""
+    yield _pc(CHECKPOINT_HIST, None)
+    yield _pc(dict(CHECKPOINT_HIST, mode="bytes"), None)
+    for pr in itertools.permutations([9, 1, 6, 8]):
+        yield _pc(CHECKPOINT_HIST, [[7, 9], list(pr), [], []])
+    yield _pc(PRELOAD_HIST, None)
+    yield _pc(dict(PRELOAD_HIST, mode="bytes"), None)
+    yield _pc(with_default_anchor(PRELOAD_HIST), None)
+    yield _pc(with_default_anchor(ANCHOR_HIST), None)
+    # after lock_to_index: the block at the lock point, deeper locked blocks and their duplicates arrive again
+    yield _pc({"anchor": 0, "mode": "int",
+               "events": [["D", [[1, 0, 1], [2, 1, 1], [3, 2, 1], [4, 3, 1]]], ["L", 3], ["D", [[3, 2, 1], [2, 1, 1]]],
+                          ["D", [[1, 0, 1], [3, 2, 1], [5, 4, 1]]], ["D", [[3, 2, 1]]]]}, None)
+
+
 def prop_cases(rng, tier):
     for pc in regression_cases():
+        yield pc
+    for pc in anchor_kind_cases():
         yield pc
     yield _pc({"anchor": 0, "mode": "int", "events": [["D", [[1, 0, 1], [2, 1, 1]]], ["D", [[3, 2, 2]]], ["L", 1]]}, None)
     for h, pr in _hists(rng, tier):
@@ -653,6 +842,13 @@ def search(rng, tier, disagreements, known_ids):
             sub = dict(h, events=h["events"][:k])
             cands.append(_pc(sub, None))
             cands.append(_pc(sub, rand_prios(rng, sub)))
+        # the same history under every other kind of anchor (checkpoint header delivered, preloaded, default)
+        if not h.get("default_anchor"):
+            for _ in range(3):
+                for v in anchor_variants(rng, h, all_kinds=True):
+                    if well_formed(v) and all(isinstance(ev[1], (int, list)) for ev in v["events"]):
+                        cands.append(_pc(v, None))
+                        cands.append(_pc(v, rand_prios(rng, v)))
     for pc in cands:
         try:
             r = pc.thunk()
